@@ -747,8 +747,27 @@ func (rw *respWalker) inline(fr *rFrame, pt *rPath, c *ssa.Call, b *ssa.BasicBlo
 			cf.env[fv] = rw.val(fr, bindings[k])
 		}
 	}
-	rw.walk(cf, pt, callee.Blocks[0], 0, nil, map[*ssa.BasicBlock]int{}, depth+1, func(_ *rFrame, pt2 *rPath, results []rval) {
+	initial := map[*ssa.Parameter]rval{}
+	for _, prm := range callee.Params {
+		initial[prm] = cf.env[prm]
+	}
+	rw.walk(cf, pt, callee.Blocks[0], 0, nil, map[*ssa.BasicBlock]int{}, depth+1, func(cfEnd *rFrame, pt2 *rPath, results []rval) {
 		fr2 := fr.clone()
+		// what the callee learned about its arguments on this path (it tested the error it was handed: observe(…, err))
+		// holds for the caller's values too — otherwise the caller's own test of the same error forks inconsistently
+		if cfEnd != nil {
+			for k, prm := range callee.Params {
+				if k >= len(com.Args) {
+					continue
+				}
+				before, after := initial[prm], cfEnd.env[prm]
+				if (after.k == rvNil || after.k == rvNonNil) && before.k != after.k {
+					if _, isConst := com.Args[k].(*ssa.Const); !isConst {
+						rw.bind(fr2, com.Args[k], after)
+					}
+				}
+			}
+		}
 		switch len(results) {
 		case 0:
 		case 1:
